@@ -731,6 +731,10 @@ class UnpackRun:
         self.n_out: int | None = 0              # number of values delivered on this path so far (None: not decidable)
         self._prop_depth = 0
         self.pending_exc: str | None = None     # the exception with which the previous statement was left (EAFP lookups), until a handler takes it
+        # private mutable objects built on this path from the buffer (a reader / cursor that keeps the buffer and the read position):
+        # object id -> {attribute: value as value_of gives it | ("buffer", None)}; a local that holds one is recs[name] = ("mutable", [id])
+        self.objs: dict[int, dict] = {}
+        self.obj_cls: dict[int, ClassInfo] = {}
 
     _COPIED = ("env", "reads", "wire", "read_of", "tuples", "loops", "seen", "delegates", "delegate_fmts", "bind", "conds", "convs", "byte_of", "frames", "memo",
                "recs")
@@ -741,7 +745,62 @@ class UnpackRun:
         for k in self._COPIED:
             v = getattr(self, k)
             setattr(r, k, dict(v) if isinstance(v, dict) else set(v) if isinstance(v, set) else list(v))
+        r.objs = {k: dict(v) for k, v in self.__dict__.get("objs", {}).items()}
+        r.obj_cls = dict(self.__dict__.get("obj_cls", {}))
         return r
+
+    # ---- private mutable objects that hold the buffer / the read position (`cursor = _Cursor(data, offset)`)
+    def mutable_of(self, e: ast.AST) -> int | None:
+        """object id when e is a local of the current frame that holds a private mutable object built on this path"""
+        e = strip_cast(e)
+        if isinstance(e, ast.Name):
+            rec = self.recs.get(e.id)
+            if rec is not None and rec[0] == "mutable" and not self._foreign(e):
+                return rec[1][0]
+        return None
+
+    def _foreign(self, n: ast.AST) -> bool:
+        """n was written in another function than the one this frame runs (an argument expression of the caller that a parameter is bound
+        to): its names mean what they mean THERE - the caller's `self` is not the `self` of the followed method"""
+        cur = getattr(n, "_parent", None)
+        while cur is not None and not isinstance(cur, (ast.FunctionDef, ast.AsyncFunctionDef)):
+            cur = getattr(cur, "_parent", None)
+        return cur is not None and cur is not getattr(self.fi, "node", None)
+
+    def new_object(self, cls: ClassInfo) -> int:
+        oid = len(self.__dict__.setdefault("objs", {})) + 1
+        self.objs[oid] = {}
+        self.__dict__.setdefault("obj_cls", {})[oid] = cls
+        return oid
+
+    def _buffer_attr(self, oid: int) -> str | None:
+        return next((a for a, v in self.objs.get(oid, {}).items() if v is not None and v[0] == "buffer"), None)
+
+    def store_attr(self, tgt: ast.Attribute, val) -> None:
+        """`obj.attr = value` on a private mutable object of this path"""
+        oid = self.mutable_of(tgt.value)
+        k = self.obj_cls[oid]
+        if any(c.lookup(tgt.attr) is not None or tgt.attr in c.attrs for c in k.mro() if c.name != "object"):
+            raise Unknown(f"store to `{norm(tgt)[:40]}`: the class defines a member of that name")
+        if val is not None and val[0] == "buffer" and self._buffer_attr(oid) not in (None, tgt.attr):
+            raise Unknown(f"store to `{norm(tgt)[:40]}`: the object already keeps the buffer")
+        self.objs[oid][tgt.attr] = val
+
+    def _attr_value(self, x: ast.AST):
+        """value stored into an attribute of a mutable object: the buffer itself, or whatever value_of makes of it"""
+        return ("buffer", None) if self._is_data(x) else self.value_of(x)
+
+    def _mutable_targets(self, tg: ast.AST) -> bool:
+        return any(isinstance(t, ast.Attribute) and self.mutable_of(t.value) is not None for t in ast.walk(tg))
+
+    def assign_target(self, t: ast.AST, val) -> None:
+        if isinstance(t, ast.Attribute) and self.mutable_of(t.value) is not None:
+            self.store_attr(t, val)
+        elif val is not None and val[0] == "buffer":
+            self.assign(norm(t), None)
+            self.blind = f"the buffer kept under another name `{norm(t)[:30]}`"
+        else:
+            self.assign(norm(t), val)
 
     # ---- constant bindings / constant tables
     def subst(self, e: ast.AST) -> ast.AST:
@@ -880,8 +939,13 @@ class UnpackRun:
             rec = None
             if isinstance(b, ast.Name):
                 rec = self.recs.get(b.id)
+                if rec is not None and rec[0] == "mutable" and self._foreign(b):
+                    rec = None
             elif isinstance(b, ast.Call):
                 rec = self.record_value(b)
+            if rec is not None and rec[0] == "mutable":
+                # an attribute of a private mutable object: what was last stored there on this path (nothing known: None)
+                return True, (self.objs.get(rec[1][0], {}).get(e.attr) if isinstance(e, ast.Attribute) else None)
             if rec is not None:
                 return True, _pick(rec[0], rec[1], e)
         return False, None
@@ -1171,7 +1235,8 @@ class UnpackRun:
 
     def _struct_key(self, e: ast.AST) -> str | None:
         """key of the precompiled struct e denotes: `self.X` / a module or class constant / an inline `Struct(fmt)` / a local holding one"""
-        k = self.pm.struct_of(e) if not ("self" in self.bind and (chain(e) or "").startswith("self.")) else None
+        own_self = "self" in self.bind or ("self" in self.recs and self.recs["self"][0] == "mutable" and not self._foreign(e))
+        k = self.pm.struct_of(e) if not (own_self and (chain(e) or "").startswith("self.")) else None
         if k is not None:
             return k
         e = strip_cast(e)
@@ -1280,6 +1345,8 @@ class UnpackRun:
         if self.data is None or x is None or depth > 3:
             return False
         x = strip_cast(x)
+        if isinstance(x, ast.Attribute):
+            return chain(x) == self.data        # the buffer as the frame knows it through a mutable object: `self.data` / `cursor.data`
         if isinstance(x, ast.Name):
             if x.id == self.data:
                 return True
@@ -1374,8 +1441,31 @@ class UnpackRun:
         view, a delegation); anything else may read bytes behind the run's back - then nothing is concluded about the path (Unknown)."""
         if self.data is None:
             return
+        if self.objs:
+            for n in ast.walk(e):
+                # a private mutable object that keeps the buffer / the read position: the only uses this run accounts for are reads of its
+                # plain attributes (`cursor.offset`) and the buffer it keeps under the name this frame knows it by; an unfollowed method call,
+                # handing the object on, storing it somewhere may read bytes / move the position behind the run's back
+                if not (isinstance(n, ast.Name) and isinstance(n.ctx, ast.Load) and self.mutable_of(n) is not None) or n is e:
+                    continue
+                par = getattr(n, "_parent", None)
+                if par is None:
+                    continue
+                ok = isinstance(par, ast.Attribute) and par.value is n and isinstance(par.ctx, ast.Load)
+                if ok:
+                    gp = getattr(par, "_parent", None)
+                    if isinstance(gp, ast.Call) and gp.func is par:
+                        ok = False
+                    v = self.objs.get(self.mutable_of(n), {}).get(par.attr)
+                    if v is not None and v[0] == "buffer" and chain(par) != self.data:
+                        ok = False
+                if not ok:
+                    if self.blind is None:
+                        self.blind = f"use of the reader object in `{norm(par)[:50]}`"
+                    return
         for n in ast.walk(e):
-            if not (isinstance(n, ast.Name) and n.id == self.data and isinstance(n.ctx, ast.Load)):
+            if not ((isinstance(n, ast.Name) and n.id == self.data) or (isinstance(n, ast.Attribute) and "." in self.data and chain(n) == self.data)) \
+                    or not isinstance(n.ctx, ast.Load):
                 continue
             par = getattr(n, "_parent", None)
             while isinstance(par, ast.Call) and chain(par.func) in ("cast", "typing.cast") and n in par.args:
@@ -1533,6 +1623,9 @@ class UnpackRun:
             d.pop(nm, None)
         if val is None:
             return
+        if val[0] == "buffer":
+            self.blind = f"the buffer kept under another name `{nm[:30]}`"
+            return
         if val[0] == "tuple":
             self.tuples[nm] = val[1]
         elif val[0] == "const":
@@ -1591,8 +1684,20 @@ class UnpackRun:
                 recs[prm] = (val[1], list(val[2]))
             else:
                 bind[prm] = val[1]
-        if recv_value is not None and recv is not None:
+        if isinstance(recv_value, _ObjRef):
+            if recv is None:
+                raise Unknown(f"call of {callee.qualname} on a reader object: no receiver parameter")
+            if recv_value.oid is None:
+                recv_value.oid = self.new_object(recv_value.cls)      # `K(..)`: a fresh object, filled by the constructor that is followed
+            recs[recv] = ("mutable", [recv_value.oid])
+        elif recv_value is not None and recv is not None:
             bind[recv] = recv_value       # a method of a record object held in a constant table: its `self` is that display
+        if data is None:
+            # the buffer reaches the helper inside a mutable object (`self.data` of the cursor it is a method of / that it was handed)
+            for prm, rec in recs.items():
+                if rec[0] == "mutable" and self._buffer_attr(rec[1][0]) is not None:
+                    data = f"{prm}.{self._buffer_attr(rec[1][0])}"
+                    break
         self.frames.append((self.fi, self.data, self.off, self.env, self.tuples, self.bind, self.wire, recv, self.recs, self.out))
         self.fi, self.data, self.off, self.out = callee, (data if data is not None else "\0no buffer"), None, out
         self.env, self.tuples, self.bind, self.wire, self.recs = env, tuples, bind, {}, recs
@@ -1677,6 +1782,32 @@ class UnpackRun:
             if self.out is not None and any(isinstance(n, ast.Name) and n.id == self.out for t in (s.targets if isinstance(s, ast.Assign) else [s.target])
                                             for n in ast.walk(t)):
                 self.n_out = None         # the unpack list is rebound / stored into: what is delivered is not followed
+            if self.objs and any(self._mutable_targets(t) for t in (s.targets if isinstance(s, ast.Assign) else [s.target])):
+                # `self.offset = offset` / `start, self.offset = self.offset, self.offset + size` on a private mutable object: every right-hand
+                # side is evaluated first (in the state before the statement), then each target receives its value
+                self.scan_reads(v)
+                tgs = s.targets if isinstance(s, ast.Assign) else [s.target]
+                if len(tgs) == 1 and isinstance(tg, (ast.Tuple, ast.List)):
+                    lit = self.subst(core) if isinstance(core, (ast.Name, ast.Subscript, ast.Call, ast.Attribute)) else core
+                    if isinstance(lit, (ast.Tuple, ast.List)) and len(lit.elts) == len(tg.elts) \
+                            and not any(isinstance(x, (ast.Starred, ast.Tuple, ast.List)) for x in list(tg.elts)) and not any(isinstance(x, ast.Starred) for x in lit.elts):
+                        vals = [self._attr_value(x) for x in lit.elts]
+                        for t, val in zip(tg.elts, vals):
+                            self.assign_target(t, val)
+                        return
+                    vals = None
+                else:
+                    vals = self._attr_value(v)
+                for t0 in tgs:
+                    if isinstance(t0, (ast.Tuple, ast.List)):
+                        for t in ast.walk(t0):
+                            if isinstance(t, ast.Attribute) and self.mutable_of(t.value) is not None:
+                                self.store_attr(t, None)
+                            elif isinstance(t, ast.Name):
+                                self.assign(t.id, None)
+                    else:
+                        self.assign_target(t0, vals)
+                return
             # delegated unpack: (value, offset) = X.unpack(fmt, data, offset)  |  offset = X.unpack(data, offset, ...)
             if isinstance(core, ast.Call) and call_name(core) == "unpack" and any(chain(a) == self.data for a in core.args):
                 offarg = [a for a in core.args if chain(a) in self.env and a is not core.args[0] or (chain(a) == self.off)]
@@ -1747,6 +1878,18 @@ class UnpackRun:
             self.n_out = None if k is None or looped or self.n_out is None else self.n_out + k
             self.scan_reads(s.value)
             return
+        if isinstance(s, ast.AugAssign) and isinstance(s.target, ast.Attribute) and self.mutable_of(s.target.value) is not None:
+            # `self.offset += calcsize(fmt)` on a private mutable object
+            new = None
+            if isinstance(s.op, (ast.Add, ast.Sub)):
+                try:
+                    d = self.lin(s.value)
+                    new = ("lin", self.lin(s.target) + (d if isinstance(s.op, ast.Add) else d.scale(-1)))
+                except Unknown:
+                    new = None
+            self.scan_reads(s.value)
+            self.store_attr(s.target, new)
+            return
         if isinstance(s, ast.AugAssign) and isinstance(s.target, ast.Name):
             if s.target.id in self.bind and s.target.id not in self.env:
                 try:
@@ -1813,13 +1956,58 @@ _NOT_FOLLOWED = ("unpack", "unpack_from", "pack", "pack_into", "iter_unpack", "c
                  "pack_serializable", "pack_serializable_list")
 
 
+class _ObjRef:
+    """receiver of a followed call that is a private mutable object of the path (oid None: the object `K(..)` is about to create)"""
+
+    def __init__(self, cls: ClassInfo, oid: int | None) -> None:
+        self.cls, self.oid, self.fresh = cls, oid, oid is None
+
+
+def _plain_private_class(k: ClassInfo) -> bool:
+    """a class of /repo whose instances are nothing but the attributes its methods store: no metaclass / decorator / attribute hooks"""
+    if k.node.decorator_list or k.node.keywords:
+        return False
+    for c in k.mro():
+        if c.name == "object":
+            continue
+        if c.node.decorator_list or c.node.keywords:
+            return False
+        if any(c.lookup(n) is not None and c.lookup(n).cls is not None and c.lookup(n).cls.name != "object"
+               for n in ("__new__", "__getattr__", "__getattribute__", "__setattr__", "__delattr__", "__init_subclass__", "__set_name__")):
+            return False
+    return True
+
+
+def _hands_buffer(run: UnpackRun, call: ast.Call) -> bool:
+    """the call receives the data buffer, the unpack list or a mutable object that keeps the buffer (as an argument or as its receiver)"""
+    args = list(call.args) + [k.value for k in call.keywords]
+    passed = [chain(a) for a in args]
+    if (run.data is not None and run.data in passed) or (run.out is not None and run.out in passed):
+        return True
+    if run.objs:
+        if any(run.mutable_of(a) is not None for a in args):
+            return True
+        f = strip_cast(call.func)
+        if isinstance(f, ast.Attribute) and run.mutable_of(f.value) is not None:
+            return True
+    return False
+
+
 def _followable(run: UnpackRun, call: ast.Call, need_buffer: bool = True):
     """(helper FuncInfo, receiver is implicit) when `call` hands the data buffer / the unpack list to a function of /repo that is not itself a
     packer's unpack.  need_buffer=False: any such function of the same module (a decision / arithmetic helper that sees neither)."""
-    passed = [chain(a) for a in list(call.args) + [k.value for k in call.keywords]]
-    if need_buffer and not ((run.data is not None and run.data in passed) or (run.out is not None and run.out in passed)):
+    if need_buffer and not _hands_buffer(run, call):
         return None
     f = strip_cast(call.func)
+    if isinstance(f, ast.Attribute) and run.mutable_of(f.value) is not None:
+        # a method of a private mutable object built on this path (`cursor.take(fmt)`): run with `self` standing for that object
+        oid = run.mutable_of(f.value)
+        target = run.obj_cls[oid].lookup(f.attr)
+        if target is None or target.decorator_names() or target.is_async or any(isinstance(x, (ast.Yield, ast.YieldFrom)) for x in walk_no_nested(target.node)):
+            return None
+        if f.attr in run.objs[oid]:
+            return None           # an attribute of that name was stored on the object: it shadows the method
+        return target, True, _ObjRef(run.obj_cls[oid], oid)
     if isinstance(f, (ast.Name, ast.Subscript, ast.Call)):
         f = run.subst(f)                  # a callable picked from a constant dispatch table
     if (f.attr if isinstance(f, ast.Attribute) else f.id if isinstance(f, ast.Name) else None) in _NOT_FOLLOWED:
@@ -1833,6 +2021,15 @@ def _followable(run: UnpackRun, call: ast.Call, need_buffer: bool = True):
         r = repo.resolve_name(run.fi.module, f.id)
         if isinstance(r, FuncInfo):
             target = r
+        elif isinstance(r, ClassInfo) and need_buffer and run.data is not None \
+                and run.data in [chain(a) for a in list(call.args) + [kw.value for kw in call.keywords]] \
+                and record_fields_of_callee(repo, run.fi.module, f, run._is_local) is None and _plain_private_class(r):
+            # `_Cursor(data, offset)`: a private class whose constructor receives the buffer - the constructor is followed on a fresh object
+            init = r.lookup("__init__")
+            if init is None or init.cls is None or init.cls.name == "object" or init.decorator_names() or init.is_async \
+                    or any(isinstance(x, (ast.Yield, ast.YieldFrom)) for x in walk_no_nested(init.node)):
+                return None
+            return init, True, _ObjRef(r, None)
         elif r is None and k is not None and k.lookup(f.id) is not None:
             target = k.lookup(f.id)       # a function of the class body, referenced by a class-level table: called with an explicit receiver
     elif isinstance(f, ast.Attribute) and isinstance(f.value, (ast.Name, ast.Subscript, ast.Attribute)) and run.subst(f.value) is not strip_cast(f.value) \
@@ -1962,7 +2159,8 @@ def _step_one(ctx: Ctx, pm: PackerModel, run: UnpackRun, node, lab, depth: int) 
         return [run]
     # a helper that receives the data buffer: its paths are run in a frame of their own, on the same reads / conditions
     cc = _call_of(a)
-    if cc is not None:
+    early = _nested_buffer_call(run, a) if cc is not None else None
+    if cc is not None and early is None:
         call, tgt, kind = cc
         fol = _followable(run, call)
         if fol is not None:
@@ -1976,7 +2174,7 @@ def _step_one(ctx: Ctx, pm: PackerModel, run: UnpackRun, node, lab, depth: int) 
                 res = _follow_pure(ctx, pm, run, a, call, tgt, kind, pure, depth)
                 if res is not None:
                     return res
-    hoist = _nested_buffer_call(run, a)
+    hoist = early if early is not None else _nested_buffer_call(run, a)
     if hoist is not None:
         # `out.append(helper(data, offset))` / `return offset + helper(data, offset)`: the one nested call that receives the buffer is evaluated
         # first into a temporary (nothing else in the statement touches the buffer), then the statement is run on the temporary
@@ -2011,6 +2209,26 @@ _EAGER_PARENTS = (ast.Call, ast.keyword, ast.Attribute, ast.Subscript, ast.Tuple
                   ast.FormattedValue, ast.Expr, ast.Assign, ast.AnnAssign, ast.AugAssign, ast.Return, ast.Slice, ast.Dict, ast.Set)
 
 
+def _evaluation_order(e: ast.AST) -> list:
+    """the sub-expressions of e in the order Python finishes evaluating them (operands before the operation, left to right)"""
+    out: list = []
+
+    def go(n: ast.AST) -> None:
+        if isinstance(n, ast.Dict):
+            for k_, v_ in zip(n.keys, n.values):
+                if k_ is not None:
+                    go(k_)
+                go(v_)
+        elif isinstance(n, (ast.Lambda, ast.ListComp, ast.SetComp, ast.DictComp, ast.GeneratorExp)):
+            pass                  # evaluated later / repeatedly: nothing inside is hoisted (see _EAGER_PARENTS)
+        else:
+            for c in ast.iter_child_nodes(n):
+                go(c)
+        out.append(n)
+    go(e)
+    return out
+
+
 def _nested_buffer_call(run: UnpackRun, a: ast.AST):
     """(call, followable) when statement `a` contains exactly one call of a followable helper that receives the buffer / the unpack list, the
     call is evaluated unconditionally, is not the whole value of the statement, and nothing else in the statement mentions the buffer."""
@@ -2018,27 +2236,38 @@ def _nested_buffer_call(run: UnpackRun, a: ast.AST):
         return None
     whole = strip_cast(a.value)
     found = []
-    for c in ast.walk(a.value):
-        if isinstance(c, ast.Call) and c is not whole:
-            passed = [chain(x) for x in list(c.args) + [k.value for k in c.keywords]]
-            if not ((run.data is not None and run.data in passed) or (run.out is not None and run.out in passed)):
+    order = _evaluation_order(a.value)
+    for c in order:
+        if isinstance(c, ast.Call):
+            if not _hands_buffer(run, c):
                 continue
             fol = _followable(run, c)
             if fol is not None:
                 found.append((c, fol))
-    if len(found) != 1:
-        return None
+    if not found or found[0][0] is whole:
+        return None             # the first call to run is the whole value: followed as the statement itself
+    # several followable calls in one statement (`cursor.take(cursor.read_length(..))`, `f(cursor.a(), cursor.b())`): they run in evaluation
+    # order, so the first one is taken out first; the rewritten statement is stepped again and yields the next
     call, fol = found[0]
-    inside = {id(n) for n in ast.walk(call)}
+    inside = {id(n) for c, _ in found for n in ast.walk(c)}
     for n in ast.walk(a):
-        if isinstance(n, ast.Name) and n.id == run.data and id(n) not in inside:
+        if ((isinstance(n, ast.Name) and n.id == run.data) or (isinstance(n, ast.Attribute) and chain(n) == run.data)) and id(n) not in inside:
             return None
+    # nothing that is evaluated BEFORE the call may depend on what the call changes: a read of an attribute of a mutable object
+    # (`cursor.offset + cursor.take(..)`) that stands earlier in evaluation order keeps the statement from being reordered
+    first = {id(n) for n in ast.walk(call)}
+    receivers = {id(strip_cast(c.func).value) for c, _ in found if isinstance(strip_cast(c.func), ast.Attribute)}
+    for n in order:
+        if id(n) in first:
+            break
+        if isinstance(n, ast.Name) and run.mutable_of(n) is not None and id(n) not in receivers:
+            par = getattr(n, "_parent", None)
+            if not (isinstance(par, ast.Call) and any(par is c for c, _ in found) and n in par.args):
+                return None
     cur = call
     while cur is not a:
         par = getattr(cur, "_parent", None)
         if par is None or not isinstance(par, _EAGER_PARENTS):
-            return None
-        if isinstance(par, ast.Call) and par.func is cur:
             return None
         cur = par
     return call, fol
@@ -2117,6 +2346,10 @@ def _follow_buffer_call(ctx: Ctx, pm: PackerModel, run: UnpackRun, a, call: ast.
         if err:
             raise Unknown(f"in helper {callee.qualname}: {err[len('unknown: '):] if err.startswith('unknown: ') else err}")
         vals = fin.retvals
+        if isinstance(recv_value, _ObjRef) and recv_value.fresh:
+            if vals is not None and not (isinstance(vals, tuple) and vals[0] == "const" and const_value(vals[1]) is None):
+                raise Unknown(f"constructor {callee.qualname} returns a value")
+            vals = ("rec", "mutable", [recv_value.oid])       # `K(..)` evaluates to the object its constructor filled
         if kind == "return" and fin.frames:
             fin.finish_frame(None)          # `return helper(..)` inside a followed helper: hand the value on to its caller
             fin.retvals = vals
@@ -2125,21 +2358,33 @@ def _follow_buffer_call(ctx: Ctx, pm: PackerModel, run: UnpackRun, a, call: ast.
                 raise Unknown(f"helper {callee.qualname} does not return an offset to `{norm(a)[:40]}`")
             fin.ret, fin.ret_node = vals[1], a
         elif kind == "assign":
-            if isinstance(vals, tuple) and vals[0] == "rec" and vals[1] == "tuple" and isinstance(tgt, (ast.Tuple, ast.List)):
-                vals = [v for _, v in vals[2]]          # `a, b = helper(..)` where the helper returns a NamedTuple
-            if isinstance(tgt, (ast.Tuple, ast.List)):
-                if isinstance(vals, list) and len(vals) == len(tgt.elts):
-                    for t, v in zip(tgt.elts, vals):
-                        fin.assign(norm(t), v)
-                else:
-                    for t in tgt.elts:
-                        fin.assign(norm(t), None)
-            elif isinstance(vals, list):
-                fin.assign(norm(tgt), ("rec", "tuple", [(None, v) for v in vals]))     # `pair = helper(..)` returning `(a, b)`
-            else:
-                fin.assign(norm(tgt), vals if isinstance(vals, tuple) else None)
+            _deliver_result(fin, tgt, vals)
         out.append(fin)
     return out
+
+
+def _deliver_result(fin: UnpackRun, tgt: ast.AST, vals) -> None:
+    """bind the target(s) of `tgt = helper(..)` to what the followed helper returned on this path"""
+    if isinstance(vals, tuple) and vals[0] == "rec" and vals[1] == "tuple" and isinstance(tgt, (ast.Tuple, ast.List)):
+        vals = [v for _, v in vals[2]]          # `a, b = helper(..)` where the helper returns a NamedTuple
+    if isinstance(tgt, (ast.Tuple, ast.List)):
+        if fin.objs and fin._mutable_targets(tgt):
+            raise Unknown(f"helper result unpacked into attributes of a reader object `{norm(tgt)[:40]}`")
+        if isinstance(vals, list) and len(vals) == len(tgt.elts):
+            for t, v in zip(tgt.elts, vals):
+                fin.assign(norm(t), v)
+        elif isinstance(vals, tuple) and vals[0] == "tuple" and not any(isinstance(t, (ast.Starred, ast.Tuple, ast.List)) for t in tgt.elts):
+            # `a, b = helper(..)` where the helper returns the value tuple of one struct read: each target is one wire value of that read
+            for i, t in enumerate(tgt.elts):
+                fin.assign(norm(t), ("lin", fin.wsym(vals[1], i)))
+                fin.wire[norm(t)] = f"wire{vals[1]}[{i}]"
+        else:
+            for t in tgt.elts:
+                fin.assign(norm(t), None)
+    elif isinstance(vals, list):
+        fin.assign_target(tgt, ("rec", "tuple", [(None, v) for v in vals]))     # `pair = helper(..)` returning `(a, b)`
+    else:
+        fin.assign_target(tgt, vals if isinstance(vals, tuple) else None)
 
 
 def _follow_pure(ctx: Ctx, pm: PackerModel, run: UnpackRun, a, call: ast.Call, tgt, kind: str, pure, depth: int):
@@ -2166,19 +2411,7 @@ def _follow_pure(ctx: Ctx, pm: PackerModel, run: UnpackRun, a, call: ast.Call, t
                     return None
                 fin.ret, fin.ret_node = vals[1], a
             else:
-                if isinstance(vals, tuple) and vals[0] == "rec" and vals[1] == "tuple" and isinstance(tgt, (ast.Tuple, ast.List)):
-                    vals = [v for _, v in vals[2]]
-                if isinstance(tgt, (ast.Tuple, ast.List)):
-                    if isinstance(vals, list) and len(vals) == len(tgt.elts):
-                        for t, v in zip(tgt.elts, vals):
-                            fin.assign(norm(t), v)
-                    else:
-                        for t in tgt.elts:
-                            fin.assign(norm(t), None)
-                elif isinstance(vals, list):
-                    fin.assign(norm(tgt), ("rec", "tuple", [(None, v) for v in vals]))
-                else:
-                    fin.assign(norm(tgt), vals if isinstance(vals, tuple) else None)
+                _deliver_result(fin, tgt, vals)
             out.append(fin)
             if len(out) > 8:
                 return None           # too many ways through the helper to carry along: treated as a value nothing is known about
@@ -2275,8 +2508,22 @@ def _fmt_template(f: ast.AST, depth: int = 0) -> str | None:
     if isinstance(cv, str):
         return cv
     if isinstance(f, ast.JoinedStr):
-        return "".join(v.value if isinstance(v, ast.Constant) else "{n}" for v in f.values)
+        def part(v) -> str:
+            if isinstance(v, ast.Constant):
+                return v.value
+            # f"{'4s'}" / f"{16}": a constant text / number without conversion or format spec is written as it stands
+            cv_ = const_value(strip_cast(v.value)) if isinstance(v, ast.FormattedValue) and v.conversion == -1 and v.format_spec is None else None
+            if isinstance(cv_, str) or (isinstance(cv_, int) and not isinstance(cv_, bool)):
+                return str(cv_) if "{" not in str(cv_) and "}" not in str(cv_) else "{n}"
+            return "{n}"
+        return "".join(part(v) for v in f.values)
     if isinstance(f, ast.BinOp) and isinstance(f.op, ast.Mod) and isinstance(const_value(f.left), str):
+        rv = const_value(strip_cast(f.right))
+        if isinstance(rv, (str, int, tuple)) and not isinstance(rv, bool) and (not isinstance(rv, tuple) or all(isinstance(x, (str, int)) and not isinstance(x, bool) for x in rv)):
+            try:
+                return const_value(f.left) % rv          # every operand is a constant: the text itself
+            except (TypeError, ValueError):
+                pass
         return re.sub(r"%[0-9]*[dis]", "{n}", const_value(f.left))
     if isinstance(f, ast.BinOp) and isinstance(f.op, ast.Add):
         l, r = _fmt_template(f.left, depth + 1), _fmt_template(f.right, depth + 1)
@@ -2853,7 +3100,7 @@ def _varlenutf8_interpreted(ctx: Ctx, cls: ClassInfo, pk: FuncInfo, un: FuncInfo
             if init is not None and init.cls.name not in ("Packer", "object"):
                 Mini(repo, init, hooks)(me, lf)
             width = struct.calcsize(lf)
-            for text in ("", "abc", "h\u00e9llo \u20ac", "\U0001d11e clef", "x" * 300):
+            for text in ("", "abc", "h\u00e9llo \u20ac", "\U0001d11e clef", "x" * 300, "\ufeff", "\ufeffbom first", "a\ufeffb\ufeff"):
                 raw = text.encode("utf-8")
                 want = struct.pack(lf, len(raw)) + raw
                 try:
@@ -2959,6 +3206,75 @@ def _listof_interpreted(ctx: Ctx, cls: ClassInfo, pk: FuncInfo, un: FuncInfo, wh
               f"ListOf: {bad}: the item count on the wire does not drive the number of inner unpacks / the offset is not threaded")
 
 
+def _flags_boundary_refuted(ctx: Ctx, cls: ClassInfo, pk: FuncInfo, un: FuncInfo) -> str | None:
+    """
+    Flags: every value of the flag word is legal, in particular 0 = the empty flag collection.  __init__ / unpack / pack are interpreted on
+    sample flag words (0, single bits, several bits, all bits): pack(unpack(word)) must be the word again.  A sample can only REFUTE; when
+    the methods cannot be interpreted nothing is concluded (None).
+    """
+    repo = ctx.repo
+    init = cls.lookup("__init__")
+    try:
+        for fmt in (">H", ">B"):
+            me = Opaque("Flags instance")
+            if init is not None and init.cls.name not in ("Packer", "object"):
+                Mini(repo, init, struct_hooks)(me, fmt)
+            top = 8 * struct.calcsize(fmt)
+            for word in (0, 1, 2, 1 << (top - 1), 3, 0b1010, (1 << top) - 1):
+                wire = struct.pack(fmt, word)
+                out: list = []
+                try:
+                    Mini(repo, un, struct_hooks)(me, b"\x07" + wire + b"\x09", 1, out)
+                except MiniRaised as e:
+                    return f"unpack of the flag word {word:#x} ({fmt!r}) raises {e}"
+                if len(out) != 1 or not isinstance(out[0], (list, tuple, set, frozenset)):
+                    return None
+                try:
+                    got = Mini(repo, pk, struct_hooks)(me, out[0])
+                except MiniRaised as e:
+                    return (f"pack of the decoded flag collection {sorted(out[0])!r} (flag word {word:#x}, format {fmt!r}) raises {e}: "
+                            + ("the EMPTY collection - a peer that offers no service, wire bytes all zero - cannot be encoded" if word == 0 else "it cannot be encoded"))
+                if got != wire:
+                    return f"pack of the decoded flag collection {sorted(out[0])!r} gives {got!r}, the wire bytes were {wire!r}"
+    except (MiniUndecided, RecursionError):
+        return None
+    return None
+
+
+def _listof_boundary_refuted(ctx: Ctx, cls: ClassInfo, pk: FuncInfo) -> str | None:
+    """
+    ListOf.pack at the boundaries of the item count a one-byte prefix can hold (0, 1, 254, 255 items - all legal): it must give the count
+    followed by the packed items.  The method is interpreted with a stand-in inner packer; a sample can only REFUTE, and when the methods
+    cannot be interpreted nothing is concluded (None).
+    """
+    repo = ctx.repo
+    init = cls.lookup("__init__")
+    if init is None:
+        return None
+    try:
+        for lf, counts in ((">B", (0, 1, 254, 255)), (">H", (0, 255, 256))):
+            for n in counts:
+                inner, me = Opaque("inner packer"), Opaque("ListOf instance")
+
+                def hooks(name, base, args, kwargs, inner=inner):
+                    if base is inner and name is not None and name.split(".")[-1] == "pack":
+                        if kwargs or len(args) != 1 or not (isinstance(args[0], tuple) and args[0][:1] == ("item",)):
+                            raise MiniUndecided(f"inner packer called as pack{tuple(args)!r}")
+                        return bytes([args[0][1] % 251 + 1])
+                    return struct_hooks(name, base, args, kwargs)
+                Mini(repo, init, hooks)(me, inner, lf)
+                want = struct.pack(lf, n) + b"".join(bytes([i % 251 + 1]) for i in range(n))
+                try:
+                    got = Mini(repo, pk, hooks, fuel=400000)(me, [("item", i) for i in range(n)])
+                except MiniRaised as e:
+                    return f"pack of a list of {n} items with the length format {lf!r} (whose count prefix holds up to {256 ** struct.calcsize(lf) - 1}) raises {e}"
+                if got != want:
+                    return f"pack of a list of {n} items with the length format {lf!r} gives {str(got)[:40]!r}, not the count followed by the packed items"
+    except (MiniUndecided, RecursionError):
+        return None
+    return None
+
+
 def _layout_agreement(ctx: Ctx, cls: ClassInfo, pk: FuncInfo, un: FuncInfo, alts, runs) -> None:
     """Pack and unpack must use the same struct formats (as concatenated field codes) and the same length unit."""
     def chars_of_pack(pieces) -> str:
@@ -3048,6 +3364,9 @@ def _layout_agreement(ctx: Ctx, cls: ClassInfo, pk: FuncInfo, un: FuncInfo, alts
             return
         ctx.check(ok, "packer-symmetry", un, un.node, "ListOf: count prefix = number of items; the inner packer runs count times on the threaded offset",
                   "ListOf: the item count on the wire does not drive the number of inner unpacks / the offset is not threaded")
+        bad = _listof_boundary_refuted(ctx, cls, pk)
+        ctx.check(bad is None, "packer-symmetry", pk, pk.node, "ListOf.pack: 0 / 1 / 254 / 255 items give count + items (refutation only)",
+                  f"ListOf.pack: {bad}: a list the count prefix can describe is refused / written differently, so a legal message cannot be encoded")
     if cls.name == "VarLenUtf8":
         def utf8_call(fi, c, meth):
             """c is `<x>.encode()` / `<x>.decode()` with the default (or an explicit utf-8) codec."""
@@ -3072,6 +3391,36 @@ def _layout_agreement(ctx: Ctx, cls: ClassInfo, pk: FuncInfo, un: FuncInfo, alts
                 enc = enc or (utf8_call(pk, a, "encode") and chain(resolve(pk, a.func.value)) == value_param)
         dec = any(utf8_call(un, c, "decode") for c in calls(un)) and any(parent_call(c, "unpack") is not None for c in calls(un))
         how = ""
+        # the codec NAMES on the two sides are constants: they must denote the same codec (aliases 'utf8' / 'UTF-8' / 'U8' normalised by the
+        # codec registry of the trusted stdlib).  'utf-8-sig' / 'utf-16' / 'latin-1' on one side only is another mapping between str and
+        # bytes: some str does not come back as it was sent (utf-8-sig drops a leading U+FEFF) or other implementations read other text
+        import codecs
+
+        def codec_names(fi, enc_side: bool) -> set:
+            out = set()
+            for c in calls(fi):
+                nm = None
+                if isinstance(c.func, ast.Attribute) and c.func.attr == ("encode" if enc_side else "decode") and len(c.args) + len(c.keywords) <= 2:
+                    x = arg(c, 0, "encoding")
+                    nm = "utf-8" if x is None else const_value(fold_consts(ctx.repo, fi.module, x))
+                elif chain(c.func) == ("bytes" if enc_side else "str") and len(c.args) + len(c.keywords) >= 2:
+                    x = arg(c, 1, "encoding")
+                    nm = const_value(fold_consts(ctx.repo, fi.module, x)) if x is not None else None
+                else:
+                    continue
+                if isinstance(nm, str):
+                    try:
+                        out.add(codecs.lookup(nm).name)
+                    except LookupError:
+                        out.add("unknown codec " + nm)
+            return out
+        ce, cd = codec_names(pk, True), codec_names(un, False)
+        if ce and cd and (len(ce) > 1 or len(cd) > 1 or ce != cd or ce != {"utf-8"}):
+            ctx.check(False, "packer-symmetry", un, un.node, "VarLenUtf8: same codec on both sides",
+                      f"VarLenUtf8.pack encodes with codec {sorted(ce)} but VarLenUtf8.unpack decodes with {sorted(cd)}: the two are not the UTF-8 pair the wire "
+                      "format prescribes, so some legal str does not decode to what was encoded (e.g. 'utf-8-sig' strips a leading U+FEFF) or other "
+                      "implementations read other text")
+            return
         if not (enc and dec):
             # not the reviewed spelling (`bytes(s, "utf-8")`, `str(b, "utf-8")`, codecs, a helper ..): decided by what pack / unpack compute
             bad = _varlenutf8_interpreted(ctx, cls, pk, un)
@@ -3087,7 +3436,21 @@ def _layout_agreement(ctx: Ctx, cls: ClassInfo, pk: FuncInfo, un: FuncInfo, alts
         vals = {k: ctx.repo.resolve_const(ctx.repo.module(SER), consts[k]) for k in ("ADDRESS_TYPE_IPV4", "ADDRESS_TYPE_DOMAIN_NAME", "ADDRESS_TYPE_IPV6")}
         ok = len(set(vals.values())) == 3
         # the type tag is the first value of the first struct a branch writes (later pieces - the port written by a struct of its own - are data)
-        tags_p = sorted({p[2][0] for a in alts for p in a[:1] if p[0] == "struct" and p[2]})
+        def tag_name(p) -> str:
+            """the tag constant a written tag expression denotes: its own name, or - for another spelling of the same integer (a member of
+            an IntEnum / IntFlag built from the constants, a literal) - the name of the one tag constant with that value"""
+            if p[2][0] in vals:
+                return p[2][0]
+            x = strip_cast(p[3][0])
+            if isinstance(x, ast.Attribute):
+                k_ = ctx.repo.resolve_class_expr(pk.module, x.value)
+                if k_ is not None and any(b.split(".")[-1] in ("Enum", "Flag", "StrEnum") for b in k_.all_base_names()) \
+                        and not any(b.split(".")[-1] in ("IntEnum", "IntFlag", "int") for b in k_.all_base_names()):
+                    return p[2][0]              # a member of a plain Enum is not an integer: struct.pack would refuse it
+            cv_ = ctx.repo.resolve_const(pk.module, x, pk.cls)
+            same = [n_ for n_, v_ in vals.items() if isinstance(cv_, int) and not isinstance(cv_, bool) and v_ == cv_]
+            return same[0] if len(same) == 1 else p[2][0]
+        tags_p = sorted({tag_name(p) for a in alts for p in a[:1] if p[0] == "struct" and p[2]})
         for a in alts:
             for p in a[:1]:
                 if p[0] == "struct" and p[2] and p[2][0] not in vals:
@@ -3110,8 +3473,8 @@ def _layout_agreement(ctx: Ctx, cls: ClassInfo, pk: FuncInfo, un: FuncInfo, alts
         for a in alts:
             for p in a[:1]:
                 if p[0] == "struct" and p[2]:
-                    layout_p.setdefault(p[2][0], set()).add(chars_of_pack(a))
-                    conv_p.setdefault(p[2][0], set()).update(c for q in a if q[0] == "struct" for c in _addr_conversions(q[3], None))
+                    layout_p.setdefault(tag_name(p), set()).add(chars_of_pack(a))
+                    conv_p.setdefault(tag_name(p), set()).update(c for q in a if q[0] == "struct" for c in _addr_conversions(q[3], None))
         layout_u: dict = {}
         conv_u: dict = {}
         sizes: dict = {}
@@ -3171,6 +3534,9 @@ def _layout_agreement(ctx: Ctx, cls: ClassInfo, pk: FuncInfo, un: FuncInfo, alts
         ufm = [[k[len("struct:"):] for _, _, k in r.reads] if all(k.startswith("struct:") for _, _, k in r.reads) else None for r, _ in runs]
         ok = bool(pfm) and bool(ufm) and all(f == ["self.format"] for f in pfm) and all(f == ["self.format"] for f in ufm)
         ctx.check(ok, "packer-symmetry", pk, pk.node, "Flags: same struct format on both sides", f"Flags packs and unpacks with different formats (pack {pfm}, unpack {ufm})")
+        bad = _flags_boundary_refuted(ctx, cls, pk, un)
+        ctx.check(bad is None, "packer-symmetry", pk, pk.node, "Flags: pack(unpack(word)) = word for the sample flag words 0, single bits, all bits (refutation only)",
+                  f"Flags: {bad}: a legal flag word does not survive decode + encode, so the message that carries it cannot be re-encoded to the same bytes")
 
 
 # ------------------------------------------------------------------------------------------ concrete mini-interpreter
